@@ -8,7 +8,7 @@ HOOKS = dict(
 )
 ENGINES = [
     dict(name="graph-smt", path="driver/ + symg/",
-         serves_properties=["C16", "C17"],
+         serves_properties=["C01", "C16", "C17"],
          kind_free_text="Rust driver linked against /repo's current tree runs the real instantiate/inline/compile/optimize functions and dumps the term DAGs they build; "
                         "a Python interpreter turns each DAG 1:1 into z3 bit-vector terms (inputs, randomness, junk symbolic) and z3/cvc5 decide the property; models are replayed on the real evaluator"),
 ]
@@ -16,6 +16,13 @@ NOTES = "See DESIGN.md. Exit codes: 0 held within the stated bounds, 1 VIOLATION
 
 G_NOTE = ("Trusted: the SMT semantics of the primitive operations in symg/interp.py (validated on every checked graph against the real SimpleEvaluator node by node on boundary vectors), "
           "z3 5.1 / cvc5 1.0, the driver's dump. Programs are generated (bounded families), inputs are decided by the solver.")
+
+chk("C01", "graph-smt", "translation_validation",
+    "Bounded translation validation of the MPC compiler: for each generated source graph (43 single-operation/composition templates, Call/Iterate wrappers in all 3 inline modes, 40 random typed DAGs; "
+    "8-bit twin plus one wide scalar type each; covering rotation of owner vectors in {0,1,2,public,shared}^n, all 8 output sets) the real compile_context output is symbolically executed and the solver shows "
+    "revealed output (or sum of the three output shares) = source output for ALL inputs, ALL input sharings and ALL Random/PRF values. Programs are sampled, values are not.",
+    G_NOTE + " PRF idealised as arbitrary outputs under (key, iv, type) congruence.",
+    "SMT (z3, sum-of-monomials normalisation + QF_BV) equivalence of source graph vs real compiler output, inputs/sharings/randomness symbolic", "DESIGN.md §5 C01")
 
 chk("C16", "graph-smt", "other",
     "Bounded symbolic equivalence: for each comparison/min/max operation, signedness, bit width (1..17,31..33,63,64,128 quick; 1..64,96,127,128 thorough), broadcasting pattern and inline mode, the graph built by the real instantiate code is "
@@ -29,7 +36,7 @@ chk("C17", "graph-smt", "other",
     G_NOTE, "SMT (z3 QF_BV) equivalence of the real generated circuit vs bit-vector spec, all operands symbolic", "DESIGN.md §5 C17")
 
 _pending = "check not built yet in this session; see DESIGN.md for the plan"
-for p in ["C01","C02","C03","C04","C05","C06","C07","C08","C09","C10","C13","C14","C15","C18"]:
+for p in ["C02","C03","C04","C05","C06","C07","C08","C09","C10","C13","C14","C15","C18"]:
     NOT_APPLICABLE[p] = _pending
 NOT_APPLICABLE["C11"] = "API histories over Arc/AtomicRefCell/HashMap state with format!-built errors: not encodable (Kani: 580 s/15 GB on a 3-call concrete history); a hand model would not be the real code"
 NOT_APPLICABLE["C12"] = "serde_json/typetag parsing of several-hundred-byte strings followed by the graph-building API: out of reach of bit-precise symbolic execution; round-trip equality has no input to quantify besides the program"
